@@ -64,37 +64,29 @@ theorem infer_is_one_witness :
 
 /-! ## tables -/
 
-/-- rows of `_any_relop_any` excluded from the soundness statement (the finding) -/
-def knownBad : List (Key × Key) :=
-  [(.name "nonnegative", .name "nonpositive"), (.name "nonpositive", .name "nonnegative")]
+/-- **tables_sound** (full statement; true since the `fix:` commit 6a4e7cd in /repo).  Every row of the
+regenerated tables that `_compare` can consult — all of `_constant_relop_constant`, the rows of
+`_constant_relop_any` keyed by a numeric constant, all of `_any_relop_any` — is judged sound by
+`SignAbs.rowSound`: every non-`None` entry is the strongest sound entry.  Re-checked by the kernel
+against the tables read from the module on every run (one obligation per row, by name, in
+`Generated/C04Rows.lean`). -/
+theorem tables_sound : TablesOK Generated.C04.tables = true := by decide
 
-/-- the regenerated tables without the two rows -/
-def goodTables : Tables := Generated.C04.tables.without knownBad
-
-/- Full statement (FALSE of the code as written): `TablesOK Generated.C04.tables = true`.
-   The rows (nonnegative, nonpositive) and (nonpositive, nonnegative) claim a strict inequality
-   and a disequality, false at 0 vs 0. -/
-
-/-- **tables_sound_partial.**  Every row of the regenerated tables that `_compare` can consult —
-all of `_constant_relop_constant`, the rows of `_constant_relop_any` keyed by a numeric constant,
-all of `_any_relop_any` except the two rows of `knownBad` — is judged sound by `SignAbs.rowSound`:
-every non-`None` entry is the strongest sound entry.  Re-checked by the kernel against the tables
-read from the module on every run (one obligation per row, by name, in `Generated/C04Rows.lean`). -/
-theorem tables_sound_partial : TablesOK goodTables = true := by decide
-
-/-- **tables_sound_partial, lifted**: for every linearly ordered field, every named-constant chain
+/-- **tables_sound, lifted**: for every linearly ordered field, every named-constant chain
 `0 < smallest_subnormal < smallest < eps < 1 < largest`, every consulted row and every non-`None`
 entry: the entry is the truth value of the relational operator on *all* pairs of extended values
 denoted by the row's keys. -/
 theorem tables_sound_lifted (nc : NC K) (t : Table)
-    (ht : t = goodTables.cc ∨ t = numericRows goodTables.ca ∨ t = goodTables.aa)
+    (ht : t = Generated.C04.tables.cc ∨ t = numericRows Generated.C04.tables.ca ∨ t = Generated.C04.tables.aa)
     (k1 k2 : Key) (row : Row) (hmem : ((k1, k2), row) ∈ t) (r : Rel) (b : Bool)
     (hb : (row[r.index]?).join = some b) (x y : EV K) (hx : InKey nc k1 x) (hy : InKey nc k2 y) :
     r.holds x y = b :=
-  tables_lifted nc tables_sound_partial t ht k1 k2 row hmem r b hb x y hx hy
+  tables_lifted nc tables_sound t ht k1 k2 row hmem r b hb x y hx hy
 
-/-- negation witness for the two rows (as they are in the package today): the judge rejects them,
-and indeed 0 is nonpositive and nonnegative while `0 < 0` is false — the row says `True`. -/
+/-- REGRESSION WITNESS about the OLD rows (nonnegative, nonpositive) / (nonpositive, nonnegative) of
+`_any_relop_any` (literal data `badRows`; fixed in /repo by 6a4e7cd — kept so that the search
+recognises the defect if it returns): the judge rejects them, and indeed 0 is nonpositive and
+nonnegative while `0 < 0` is false — the old row said `True`. -/
 theorem tables_unsound_witness (nc : NC K) :
     badRows.all (fun row => !rowSound row) = true ∧
     InKey nc (.name "nonpositive") (.fin 0) ∧ InKey nc (.name "nonnegative") (.fin 0) ∧
@@ -163,20 +155,17 @@ theorem rewrite_sound_real (S : Sem K) (L : S.Laws) (hexact : ∀ z : K, S.rnd z
   rewrite_sound_general S L env (fun _ _ a _ => hexact a) cfg hstrict hT nc hnc hnamed (fun _ q _ _ => hexact q)
     (Or.inr fun a _ => hcast a) fuel e e' v h hv
 
-/- Full statement (FALSE of the code as written): `rewrite_sound_real` with `cfg.T = Generated.C04.tables`.
-   `-abs(a) < abs(b)` is rewritten to `True` (row (nonpositive, nonnegative)); at a = b = 0 it is false. -/
-
-/-- **rewrite_sound_real_partial**: the theorem for the tables regenerated from the package on this
-run, with exactly the two rows of the finding removed. -/
-theorem rewrite_sound_real_partial (S : Sem K) (L : S.Laws) (hexact : ∀ z : K, S.rnd z = z)
+/-- **rewrite_sound_real_generated**: `rewrite_sound_real` for the tables regenerated from the package
+on this run (all rows; the former exclusion of two rows is gone with the fix 6a4e7cd). -/
+theorem rewrite_sound_real_generated (S : Sem K) (L : S.Laws) (hexact : ∀ z : K, S.rnd z = z)
     (hcast : ∀ a : K, S.up (S.down a) = a) (env : Env K) (cfg : Cfg)
-    (hstrict : cfg.strict = true) (hT : cfg.T = goodTables) (nc : NC K)
+    (hstrict : cfg.strict = true) (hT : cfg.T = Generated.C04.tables) (nc : NC K)
     (hnc : S.named "smallest_subnormal" = some (.fin nc.a) ∧ S.named "smallest" = some (.fin nc.b) ∧
            S.named "eps" = some (.fin nc.c) ∧ S.named "largest" = some (.fin nc.d))
     (hnamed : ∀ t s b, cfg.work = some t → namedBits t s = some b → S.named s = S.ofExt (extOfBits t.fmt b))
     (fuel : Nat) (e e' : Expr) (v : EV K)
     (h : rewriteDeep cfg fuel e = .ok e') (hv : eval S env e = some v) : eval S env e' = some v :=
-  rewrite_sound_real S L hexact hcast env cfg hstrict (hT ▸ tables_sound_partial) nc hnc hnamed fuel e e' v h hv
+  rewrite_sound_real S L hexact hcast env cfg hstrict (hT ▸ tables_sound) nc hnc hnamed fuel e e' v h hv
 
 /-- **rewrite_sound_fp_partial.**  Floating-point reading: any rounding `S.rnd` with the laws, any
 regularity predicate `S.ok`; every assignment of representable values; strict mode with `fp`
@@ -197,10 +186,11 @@ theorem rewrite_sound_fp_partial (S : Sem K) (L : S.Laws) (env : Env K) (henv : 
   rewrite_sound_general S L env henv cfg hstrict hT nc hnc hnamed
     (fun v q hg hx => hwork v q (by simpa [repGuard, hfp] using hg) hx) (Or.inl hud) fuel e e' v h hv
 
-/-! ## witnesses (findings; replayed on the real code by the harness) -/
+/-! ## witnesses (findings and regression witnesses; replayed on the real code by the harness) -/
 
-/-- negation witness of `rewrite_sound_real` for the package's tables: the model rewrites
-`-abs(a) < abs(b)` to `True`, but at `a = b = 0` its value is `False` in every interpretation. -/
+/-- REGRESSION WITNESS for the OLD rows (`witnessCfg` holds the literal `badRows`; fixed in /repo by
+6a4e7cd — kept so that the search recognises the defect if it returns): with those rows the model
+rewrites `-abs(a) < abs(b)` to `True`, but at `a = b = 0` its value is `False` in every interpretation. -/
 theorem rewrite_unsound_witness :
     rewriteDeep witnessCfg 8 witnessExpr = .ok (boolConst true) ∧
     ∀ (S : Sem K) (L : S.Laws) (env : Env K), env "a" f32 = some (.fin 0) → env "b" f32 = some (.fin 0) →
@@ -237,7 +227,7 @@ theorem no_raise_witness_sqrt :
 
 /-- a strict configuration on the regenerated tables, working dtype float32 -/
 def exampleCfg : Cfg :=
-  { T := goodTables, ord := fun _ _ => some false, strict := true, strictUD := true, work := some .f32, fp := true }
+  { T := Generated.C04.tables, ord := fun _ _ => some false, strict := true, strictUD := true, work := some .f32, fp := true }
 
 /-- `select(abs(a) < 0, b, (b * 1 + 0) - (-(-largest)))` with float32 symbols -/
 def exampleExpr : Expr :=
@@ -252,14 +242,14 @@ theorem example_rewrites : ∃ e', rewriteDeep exampleCfg 16 exampleExpr = .ok e
 /-- ... by the exact real interpretation with `Real.sqrt` and float32's named constants: -/
 example (env : Env ℝ) (e' : Expr) (v : EV ℝ) (h : rewriteDeep exampleCfg 16 exampleExpr = .ok e')
     (hv : eval (realSem .f32) env exampleExpr = some v) : eval (realSem .f32) env e' = some v :=
-  rewrite_sound_real_partial (realSem .f32) realSem_laws (fun _ => rfl) (fun _ => rfl) env exampleCfg rfl rfl nc32
+  rewrite_sound_real_generated (realSem .f32) realSem_laws (fun _ => rfl) (fun _ => rfl) env exampleCfg rfl rfl nc32
     realSem_nc (fun t s b hw hb => realSem_named t s b .f32 hw hb) 16 _ _ v h hv
 
 /-- the same instance satisfies the hypotheses of the floating-point form (`rnd = id` is a rounding) -/
 example (env : Env ℝ) (e' : Expr) (v : EV ℝ) (h : rewriteDeep exampleCfg 16 exampleExpr = .ok e')
     (hv : eval (realSem .f32) env exampleExpr = some v) : eval (realSem .f32) env e' = some v :=
   rewrite_sound_fp_partial (realSem .f32) realSem_laws env (fun _ _ _ _ => rfl) exampleCfg rfl rfl rfl (fun _ _ _ _ => rfl)
-    tables_sound_partial nc32 realSem_nc (fun t s b hw hb => realSem_named t s b .f32 hw hb) 16 _ _ v h hv
+    tables_sound nc32 realSem_nc (fun t s b hw hb => realSem_named t s b .f32 hw hb) 16 _ _ v h hv
 
 /-- inference on concrete expressions: `-abs(a)` is nonpositive, `1 * sqrt(abs(a))` is nonnegative -/
 example : isNonpos (.un .negative (.un .absolute symA)) = .ok (some true) := by decide
